@@ -50,7 +50,7 @@ def configs_for(has_doctype, r, k):
 def run(tier):
     ck = core.Check(PID, tier)
     binary = build.ensure('asan', parts=['parse', 'domdump'])
-    ndocs = 1200 if tier == 'quick' else 30000
+    ndocs = 1200 if tier == 'quick' else 15000
     rounds = 1 if tier == 'quick' else 10
     stats = collections.Counter()
     opstat = collections.defaultdict(collections.Counter)     # op -> first fatal code counter
